@@ -51,7 +51,7 @@ type FnExec struct {
 	rangedSl map[int]bool
 	heapSorts map[string]Sort
 	writeLog map[string]bool
-	cellLog  map[*ssa.Alloc]bool
+	cellLog  map[ssa.Value]bool
 	strConsts map[string]*Term
 	depth    int
 	trustedUsed map[string]bool
@@ -424,6 +424,16 @@ func (x *FnExec) execBlock(fr *Frame, b *ssa.BasicBlock, st0 *State, g0 *Term) {
 					fr.vals[phi] = x.freshVal("disc."+phi.Name(), phi.Type())
 				}
 			}
+			for lb := range li.blocks {
+				for _, in := range lb.Instrs {
+					if nx, ok := in.(*ssa.Next); ok {
+						if r, ok := nx.Iter.(*ssa.Range); ok {
+							mt := r.X.Type().Underlying().(*types.Map)
+							st.cells[r] = x.tc.Fresh("disc.visited", SArr(x.scalarSort(mt.Key()), SBool))
+						}
+					}
+				}
+			}
 		} else {
 			if len(ps) == 0 {
 				return // unreachable
@@ -569,15 +579,22 @@ func (x *FnExec) enterLoop(fr *Frame, li *loopInfo, ps []stParent, preds []*ssa.
 	na := x.tc.Fresh("ALLOCloop", x.refSort())
 	x.addFact(x.intLe(pre.alloc, na))
 	st.alloc = na
-	var cellAllocs []*ssa.Alloc
+	var cellAllocs []ssa.Value
 	for a := range cl {
 		cellAllocs = append(cellAllocs, a)
 	}
 	sort.Slice(cellAllocs, func(i, j int) bool { return cellAllocs[i].Pos() < cellAllocs[j].Pos() })
 	for _, a := range cellAllocs {
-		cv := x.freshVal("cell."+a.Comment, deref(a.Type()))
-		x.inputFacts(st, cv, deref(a.Type()))
-		st.cells[a] = cv
+		switch av := a.(type) {
+		case *ssa.Alloc:
+			cv := x.freshVal("cell."+av.Comment, deref(av.Type()))
+			x.inputFacts(st, cv, deref(av.Type()))
+			st.cells[a] = cv
+		case *ssa.Range:
+			// visited set of a map iteration
+			mt := av.X.Type().Underlying().(*types.Map)
+			st.cells[a] = x.tc.Fresh("visited", SArr(x.scalarSort(mt.Key()), SBool))
+		}
 	}
 	phis := map[*ssa.Phi]Value{}
 	for _, in := range b.Instrs {
@@ -693,7 +710,7 @@ func (x *FnExec) closeLoop(fr *Frame, li *loopInfo, from *ssa.BasicBlock) {
 }
 
 // discover runs the loop body once from an arbitrary state to learn which heap keys / cells it writes.
-func (x *FnExec) discover(fr *Frame, li *loopInfo) (map[string]bool, map[*ssa.Alloc]bool) {
+func (x *FnExec) discover(fr *Frame, li *loopInfo) (map[string]bool, map[ssa.Value]bool) {
 	saveW, saveC := x.writeLog, x.cellLog
 	nob, nas, nfa := len(x.obls), len(x.assumes), len(x.facts)
 	saveCnt := map[string]int{}
@@ -720,7 +737,7 @@ func (x *FnExec) discover(fr *Frame, li *loopInfo) (map[string]bool, map[*ssa.Al
 	for k, v := range x.boxAxiom {
 		saveBox[k] = v
 	}
-	x.writeLog, x.cellLog = map[string]bool{}, map[*ssa.Alloc]bool{}
+	x.writeLog, x.cellLog = map[string]bool{}, map[ssa.Value]bool{}
 	fr.disc[li.header] = true
 	for _, b := range fr.rpo {
 		if li.blocks[b] {
@@ -1508,20 +1525,49 @@ func (x *FnExec) mapLen(st *State, mt *types.Map, m *Term) *Term {
 
 // range over maps: visited-set model.  The iterator value is a ghost "visited" set symbol.
 type mapIter struct {
-	mt      *types.Map
-	m       *Term
-	visited *Term
-	isStr   bool
+	mt  *types.Map
+	m   *Term
+	rng *ssa.Range
 }
 
 func (x *FnExec) rangeInit(fr *Frame, v *ssa.Range, st *State, g *Term) Value {
-	unsupp("range over map/string (visited-set model not enabled for %s)", v.X.Type())
-	return nil
+	mt, ok := v.X.Type().Underlying().(*types.Map)
+	if !ok {
+		unsupp("range over %s (only slices and maps are modelled)", v.X.Type())
+	}
+	ks := x.scalarSort(mt.Key())
+	if ks == "" {
+		unsupp("range over map with compound key")
+	}
+	// visited-set model: nothing visited yet
+	st.setCell(v, x.constArray(SArr(ks, SBool), x.tc.False()))
+	return &mapIter{mt: mt, m: fr.val(v.X).(*Term), rng: v}
 }
 
+// rangeNext: each step picks an arbitrary unvisited key of the map; the loop ends when every key was visited.
+// Any dependence of the result on iteration order therefore shows up as a failed obligation.
 func (x *FnExec) rangeNext(fr *Frame, v *ssa.Next, st *State, g *Term) Value {
-	unsupp("range next")
-	return nil
+	tc := x.tc
+	it, ok := fr.val(v.Iter).(*mapIter)
+	if !ok {
+		unsupp("next on non-map iterator")
+	}
+	mt := it.mt
+	dom, _, _, ks, _ := x.mapHeaps(st, mt)
+	rs := x.refSort()
+	vis, _ := st.getCell(it.rng)
+	visited := vis.(*Term)
+	domArr := tc.Select(st.getHeap(dom, SArr(rs, SArr(ks, SBool))), it.m)
+	isNil := tc.Eq(it.m, x.refConst(0))
+	k := tc.Fresh("rangekey", ks)
+	x.rangeFact(k, mt.Key())
+	okT := tc.Fresh("rangeok", SBool)
+	bk := tc.BVar("k", ks)
+	x.assume(g, tc.Implies(okT, tc.And(tc.Not(isNil), tc.Select(domArr, k), tc.Not(tc.Select(visited, k)))))
+	x.assume(g, tc.Implies(tc.Not(okT), tc.Or(isNil, tc.Forall([]*Term{bk}, tc.Implies(tc.Select(domArr, bk), tc.Select(visited, bk))))))
+	st.setCell(it.rng, tc.Ite(okT, tc.Store(visited, k, tc.True()), visited))
+	val := x.mapValHeapRead(st, mt, it.m, k)
+	return TupleV{okT, k, val}
 }
 
 // constBytesGlobal: a never-reassigned []byte global initialised from a string constant.
